@@ -176,8 +176,6 @@ theorem vis_heap_eq {c : Ctx} {w w' : World} (hh : w'.heap = w.heap) : vis c w' 
 @[simp] theorem World.call_heap (E : Env) (w : World) : (w.call E).2.heap = w.heap := rfl
 @[simp] theorem World.call_limitHits (E : Env) (w : World) : (w.call E).2.limitHits = w.limitHits := rfl
 
-theorem World.call_ok (E : Env) (hf : ∀ k, E.fails k = false) (w : World) : (w.call E).1 = false := hf _
-
 theorem Frame.ofLim (o : Option Nat) (w : World) : Frame o w w.lim :=
   Frame.of_heap_eq rfl (Nat.le_succ _)
 
